@@ -44,6 +44,7 @@ struct Faults {
     NetParams server_side;         // parameters of the direction server -> client for new connections
     NetParams client_side;         // parameters of the direction client -> server
     bool randomize_net = false;    // draw per connection parameters from the net stream
+    bool randomize_c2s = true;     // with randomize_net: also for the direction client -> server (off: only server -> client)
 };
 Faults& faults();
 
@@ -74,6 +75,7 @@ struct SockStats {
     u64 bytes_accepted = 0; // bytes accepted from the application by send/sendfile
     u64 recv_calls = 0, bytes_received = 0;
     bool closed = false;
+    bool accepted = false;  // created by accept (server side) rather than by connect
     i64 opened_at = 0, closed_at = -1; // simulated time of socket() / accept and of close()
 };
 const std::vector<SockStats>& sock_stats();
